@@ -1,10 +1,28 @@
 (* C12 — Literal text and string literals are represented faithfully.
-   Statements only; proofs are in proofs/ExScanner*.v.  Model: model/ExScanner.v (xscanner, xinput,
-   VisitTemplate loop). *)
+   Statements only; proofs are in proofs/ExScanner*.v, proofs/ExLexerProofs.v, proofs/ExTemplateProofs.v.
+   Models: model/ExScanner.v (xscanner, xinput, VisitTemplate loop), model/ExLexer.v + gen/GrammarE3.v (generated
+   lexer, rule table regenerated from the .g4 on every run), model/ExParser.v (generated parser + visitor),
+   lib/Quote.v (strconv.Quote/Unquote), model/ExTemplate.v (Evaluator.Template on the text fragment).
+   Parameters of the theorems stand for Go library tables: isln = unicode.IsLetter||IsNumber, lower =
+   unicode.ToLower, printable = unicode.IsPrint; the hypotheses on them are facts of those tables. *)
 From Coq Require Import List NArith Bool.
-From Verif Require Import model.ExScanner proofs.ExScannerBound.
+From Verif Require Import lib.Quote model.ExScanner model.ExTemplate proofs.ExScannerBound proofs.QuoteProofs
+  proofs.ExScannerProofs proofs.ExTemplateProofs.
 Import ListNotations.
 Open Scope N_scope.
+
+(* Sentence 1.  Template text outside expressions passes through unchanged: for every NUL-free text t that
+   contains no expression start (no_start: reading left to right and pairing "@@", no '@' is followed by '(' or
+   by a name whose lower-cased first path segment is one of the allowed top levels), for EVERY allowed-top-level
+   list and EVERY expression evaluator, Evaluator.Template returns exactly unescape_at t ("@@" -> "@", every
+   other rune, every other '@' included, stays) and collects no error.  E-mail addresses, mentions, a trailing
+   '@', "@." are instances (Example body_passthrough_witness). *)
+Theorem c12_body_passthrough : forall isln lower (eval_expr : text -> option text) tops t,
+  isln eof = false -> isln r_dot = false -> isln r_at = false ->
+  nulfree t -> no_start isln lower (Some tops) t = true ->
+  template_with isln lower eval_expr tops t = Ok (unescape_at t, O).
+Proof. exact body_passthrough_stmt. Qed.
+Print Assumptions c12_body_passthrough.
 
 (* The unread stack (fixed capacity 4 in input.go) never overflows: on EVERY input (any code points, NUL
    included), any allowed-top-level list (or nil), either unescape setting and any name-character /
@@ -25,3 +43,37 @@ Theorem c12_unread_bound_step : forall isln lower tops unescape i,
                   /\ (ty <> EOF_T -> (mu i' < mu i)%nat).
 Proof. exact scan_ok. Qed.
 Print Assumptions c12_unread_bound_step.
+
+(* Sentence 2.  Every string (valid code points, no NUL — quotes, backslashes including trailing ones,
+   parentheses, '@', newlines, control and non-BMP characters) written as strconv.Quote(s) inside @( ) evaluates
+   to exactly s, with no error, in every context: the scanner cuts out exactly the literal, the lexer reads it as
+   one TEXT token, the parser builds a text literal, the visitor's Unquote returns s.  (Full statement since the
+   repair of F10a, /repo d39e53d.) *)
+Theorem c12_literal_faithful : forall isln lower printable ctx s,
+  isln 0 = false -> printable 10 = false ->
+  valid_codepoints s -> nulfree s ->
+  template isln lower ctx ([64; 40] ++ quote printable s ++ [41]) = Ok (s, O).
+Proof. exact literal_alone_stmt. Qed.
+Print Assumptions c12_literal_faithful.
+
+(* With a neighbour, @("s" & "t") evaluates to s ++ t.  PARTIAL: proved when s does not end in a backslash.
+   Missing: s ending in a backslash — there the statement is FALSE of the model and of the code (F10b, the
+   TEXT lexer rule is greedy over backslash-quote; known finding), see the next theorem. *)
+Theorem c12_literal_neighbours_partial : forall isln lower printable ctx s t,
+  isln 0 = false -> printable 10 = false ->
+  valid_codepoints s -> nulfree s -> valid_codepoints t -> nulfree t ->
+  ends_bs s = false ->
+  template isln lower ctx ([64; 40] ++ (quote printable s ++ [32; 38; 32] ++ quote printable t) ++ [41])
+    = Ok (s ++ t, O).
+Proof. exact literal_neighbours_stmt. Qed.
+Print Assumptions c12_literal_neighbours_partial.
+
+(* the full statement is refuted: s = a\ (a, backslash), t = b gives a syntax error and empty output *)
+Theorem c12_literal_neighbours_refuted :
+  exists isln lower printable s t,
+    isln 0 = false /\ printable 10 = false /\
+    valid_codepoints s /\ nulfree s /\ valid_codepoints t /\ nulfree t /\
+    template isln lower [] ([64; 40] ++ (quote printable s ++ [32; 38; 32] ++ quote printable t) ++ [41])
+      <> Ok (s ++ t, O).
+Proof. exact literal_neighbours_refuted. Qed.
+Print Assumptions c12_literal_neighbours_refuted.
